@@ -144,7 +144,8 @@ RULE_LR = ("grammars: every well-formed grammar of the exhaustive universe (left
            "Each grammar goes through parol's LALR(1) pipeline (augmentation, lalry table, source generation) under catch_unwind and the "
            "generated tables are run by the real LRParser. GEN: a panic is a violation; a table without any reported conflict for a grammar "
            "that is not LALR(1) is a violation (C04); for every string up to length n: success only on sentences (always), and for tables "
-           "without resolved conflicts failure only on non-sentences. TV: sampled inputs x 3 texts x 5 option sets validated by LRParser.tla "
+           "without resolved conflicts failure only on non-sentences, also when ONE LRParser object is given all inputs in order (a failed "
+           "run must not leave state behind). TV: sampled inputs x 3 texts x 5 option sets validated by LRParser.tla "
            "(reductions pop exactly a right-hand side from the symbol stack; final tree = derivation tree + skipped leaves, contiguous; "
            "comments once in order). non-trivial = table produced")
 
